@@ -68,6 +68,7 @@ type mCtl struct {
 	fired      bool
 	counts     map[string]int
 	watchdog   time.Duration
+	noSuch     int // lowest actor number that did not arrive within the watchdog (0 = none)
 }
 
 var morassCur atomic.Value // *mCtl (nil pointer when no controller is active)
@@ -203,6 +204,23 @@ func (c *mCtl) actor(a int) *mGor {
 	if a == 0 {
 		return c.caller
 	}
+	if c.noSuch > 0 && a >= c.noSuch {
+		// a lower-numbered writer already failed to show up within the watchdog; writers are
+		// numbered in order of arrival, so this one has not arrived either
+		c.mu.Lock()
+		n := len(c.writers) + len(c.unassigned)
+		c.mu.Unlock()
+		if n < a {
+			return nil
+		}
+	}
+	defer func() {
+		c.mu.Lock()
+		if len(c.writers) < a && (c.noSuch == 0 || a < c.noSuch) {
+			c.noSuch = a
+		}
+		c.mu.Unlock()
+	}()
 	c.waitFor(c.watchdog, func() bool {
 		for len(c.writers) < a && len(c.unassigned) > 0 {
 			c.writers = append(c.writers, c.unassigned[0])
@@ -319,7 +337,12 @@ func morassRunWork(w mWork) string {
 		c.registerCaller()
 		close(started)
 		defer c.callerDone()
+		skipping := false // after an I/O error the caller makes no call until its next Clear
 		for _, op := range w.ops {
+			if skipping && op[0] != 'c' {
+				continue
+			}
+			skipping = false
 			c.park(c.caller.gid, "op")
 			stop := false
 			func() {
@@ -346,6 +369,14 @@ func morassRunWork(w mWork) string {
 					tok = morassErrKind(m.Clear()) + "/-"
 				default:
 					panic("morass: bad op " + op)
+				}
+				if strings.HasPrefix(tok, "err:") {
+					skipping = true
+					if w.conc {
+						// writers of the failed cycle may still be running and Clear does
+						// not wait for them: the caller gives up altogether
+						stop = true
+					}
 				}
 				out = append(out, tok+"/"+strconv.FormatInt(m.Len(), 10)+"/"+strconv.FormatInt(m.Pos(), 10))
 			}()
